@@ -4,6 +4,10 @@
 // merge-step structural invariants.
 use super::*;
 
+fn cut_compress(_d: &mut TDigestMut) {
+    panic!("verif cut: compress reached although the buffer is far from full");
+}
+
 fn nz(w: u64) -> NonZeroU64 {
     NonZeroU64::new(w).unwrap()
 }
@@ -41,6 +45,9 @@ macro_rules! range_harness {
             let min = any_val();
             let max = any_val();
             kani::assume(min <= cs[0].mean && cs[$n - 1].mean <= max);
+            // a boundary centroid of weight 1 is the extreme sample itself
+            kani::assume(cs[0].weight.get() > 1 || cs[0].mean == min);
+            kani::assume(cs[$n - 1].weight.get() > 1 || cs[$n - 1].mean == max);
             let v = TDigestView { min, max, centroids: &cs, centroids_weight: total };
             let x = any_val();
             let r = v.rank(x).unwrap();
@@ -60,12 +67,12 @@ macro_rules! range_harness {
 //@ family: range_harness
 //@ props: C10 C17
 //@ tier: thorough
-//@ timeout: 1800
+//@ timeout: 7200
 //@ functions: tdigest::TDigestView::rank
 //@ unwind: 6
 //@ bounds: digests of exactly 2 or 3 centroids; means, min, max and the query are integers of magnitude <= 2^20 (as f64), weights 1..=4096; means sorted, inside [min, max]
 //@ desc: rank(v) is in [0,1], 0 below min and 1 above max, for every valid centroid list including heavy first/last centroids
-range_harness!(c10_rank_range_2, 2); //@ tier: quick
+range_harness!(c10_rank_range_2, 2);
 range_harness!(c10_rank_range_3, 3);
 //@ endfamily: x
 
@@ -88,6 +95,8 @@ macro_rules! quantile_range_harness {
             let min = any_val();
             let max = any_val();
             kani::assume(min <= cs[0].mean && cs[$n - 1].mean <= max);
+            kani::assume(cs[0].weight.get() > 1 || cs[0].mean == min);
+            kani::assume(cs[$n - 1].weight.get() > 1 || cs[$n - 1].mean == max);
             let v = TDigestView { min, max, centroids: &cs, centroids_weight: total };
             let qn: u16 = kani::any();
             kani::assume(qn <= 1024);
@@ -105,21 +114,22 @@ macro_rules! quantile_range_harness {
 //@ family: quantile_range_harness
 //@ props: C10 C17
 //@ tier: thorough
-//@ timeout: 1800
+//@ timeout: 7200
 //@ functions: tdigest::TDigestView::quantile
 //@ functions: tdigest::weighted_average
 //@ unwind: 6
 //@ bounds: digests of exactly 2 or 3 centroids (values integers |x| <= 2^20, weights 1..=4096), q = n/1024 for every n in 0..=1024
 //@ desc: quantile(q) is in [min,max], quantile(0) = min, quantile(1) = max, for every valid centroid list including heavy first/last centroids
-quantile_range_harness!(c10_quantile_range_2, 2); //@ tier: quick
+quantile_range_harness!(c10_quantile_range_2, 2);
 quantile_range_harness!(c10_quantile_range_3, 3);
 //@ endfamily: x
 
 //@ props: C10 C17
-//@ tier: quick
-//@ timeout: 1800
+//@ tier: thorough
+//@ timeout: 7200
 //@ functions: tdigest::TDigestView::quantile
 //@ functions: tdigest::weighted_average
+//@ assumes: a boundary centroid of weight 1 sits at min / max (it is the extreme sample itself; every digest built from a stream satisfies this)
 //@ bounds: 2 centroids (values integers |x| <= 2^10, weights 1..=64), two ranks q1 <= q2 on the grid n/256
 //@ desc: quantile is non-decreasing in q (up to the rounding of one float operation chain: allowed slack 1e-9 relative to max-min)
 #[kani::proof]
@@ -144,6 +154,8 @@ fn c10_quantile_monotone_2() {
     let min = mn as f64;
     let max = mx as f64;
     kani::assume(min <= cs[0].mean && cs[1].mean <= max);
+    kani::assume(cs[0].weight.get() > 1 || cs[0].mean == min);
+    kani::assume(cs[1].weight.get() > 1 || cs[1].mean == max);
     let v = TDigestView { min, max, centroids: &cs, centroids_weight: total };
     let a: u16 = kani::any();
     let b: u16 = kani::any();
@@ -156,9 +168,10 @@ fn c10_quantile_monotone_2() {
 }
 
 //@ props: C10 C17
-//@ tier: quick
-//@ timeout: 1800
+//@ tier: thorough
+//@ timeout: 7200
 //@ functions: tdigest::TDigestView::rank
+//@ assumes: a boundary centroid of weight 1 sits at min / max (it is the extreme sample itself; every digest built from a stream satisfies this)
 //@ bounds: 2 centroids (values integers |x| <= 2^10, weights 1..=64), two query values v1 <= v2 (integers)
 //@ desc: rank is non-decreasing in v (slack 1e-9)
 #[kani::proof]
@@ -183,6 +196,8 @@ fn c10_rank_monotone_2() {
     let min = mn as f64;
     let max = mx as f64;
     kani::assume(min <= cs[0].mean && cs[1].mean <= max);
+    kani::assume(cs[0].weight.get() > 1 || cs[0].mean == min);
+    kani::assume(cs[1].weight.get() > 1 || cs[1].mean == max);
     let v = TDigestView { min, max, centroids: &cs, centroids_weight: total };
     let a: i16 = kani::any();
     let b: i16 = kani::any();
@@ -193,20 +208,112 @@ fn c10_rank_monotone_2() {
     kani::cover!(r1 < r2 && r1 > 0.0 && r2 < 1.0);
 }
 
+fn fixed_digest(which: u8) -> ([Centroid; 3], f64, f64, u64) {
+    match which {
+        // heavy first centroid, singleton at the top
+        0 => ([Centroid { mean: 10.0, weight: nz(100) }, Centroid { mean: 20.0, weight: nz(2) }, Centroid { mean: 30.0, weight: nz(1) }], 0.0, 30.0, 103),
+        // heavy last centroid, singleton at the bottom
+        1 => ([Centroid { mean: -5.0, weight: nz(1) }, Centroid { mean: 0.0, weight: nz(3) }, Centroid { mean: 8.0, weight: nz(50) }], -5.0, 16.0, 54),
+        // repeated means, weight-2 last centroid
+        _ => ([Centroid { mean: 1.0, weight: nz(4) }, Centroid { mean: 1.0, weight: nz(62) }, Centroid { mean: 3.0, weight: nz(2) }], 0.5, 4.0, 68),
+    }
+}
+
+fn rank_range_fixed<const W: u8>() {
+    let (cs, min, max, total) = fixed_digest(W);
+    let v = TDigestView { min, max, centroids: &cs, centroids_weight: total };
+    let x: f64 = kani::any();
+    kani::assume(x >= min - 1.0 && x <= max + 1.0);
+    let r = v.rank(x).unwrap();
+    assert!(r >= 0.0 && r <= 1.0, "rank outside [0,1]");
+    assert!(x >= min || r == 0.0);
+    assert!(x <= max || r == 1.0);
+    kani::cover!(x > min && x < cs[0].mean || cs[0].mean == min && x > min);
+    kani::cover!(x > cs[2].mean && x < max || cs[2].mean == max && x < max);
+}
+
+fn rank_monotone_fixed<const W: u8>() {
+    let (cs, min, max, total) = fixed_digest(W);
+    let v = TDigestView { min, max, centroids: &cs, centroids_weight: total };
+    let x1: f64 = kani::any();
+    let x2: f64 = kani::any();
+    kani::assume(x1 >= min - 1.0 && x2 <= max + 1.0 && x1 <= x2);
+    let r1 = v.rank(x1).unwrap();
+    let r2 = v.rank(x2).unwrap();
+    assert!(r1 <= r2 + 1e-9, "rank is not monotone in v");
+    kani::cover!(r1 < r2 && r1 > 0.0 && r2 < 1.0);
+}
+
+fn quantile_range_fixed<const W: u8>() {
+    let (cs, min, max, total) = fixed_digest(W);
+    let v = TDigestView { min, max, centroids: &cs, centroids_weight: total };
+    let a: u16 = kani::any();
+    kani::assume(a <= 4096);
+    let y = v.quantile(a as f64 / 4096.0).unwrap();
+    assert!(y >= min && y <= max, "quantile outside [min,max] (or NaN)");
+    assert!(v.quantile(0.0).unwrap() == min && v.quantile(1.0).unwrap() == max);
+    kani::cover!(y > min && y < max);
+}
+
+fn quantile_monotone_fixed<const W: u8>() {
+    let (cs, min, max, total) = fixed_digest(W);
+    let v = TDigestView { min, max, centroids: &cs, centroids_weight: total };
+    let a: u16 = kani::any();
+    let b: u16 = kani::any();
+    kani::assume(a <= b && b <= 4096);
+    let y1 = v.quantile(a as f64 / 4096.0).unwrap();
+    let y2 = v.quantile(b as f64 / 4096.0).unwrap();
+    assert!(y1 <= y2 + 1e-9, "quantile is not monotone in q");
+    kani::cover!(y1 < y2 && y1 > min && y2 < max);
+}
+
+macro_rules! fixed_digest_harness {
+    ($name:ident, $f:ident, $w:expr) => {
+        #[kani::proof]
+        #[kani::unwind(6)]
+        fn $name() {
+            $f::<$w>();
+        }
+    };
+}
+
+//@ family: fixed_digest_harness
+//@ props: C10 C17
+//@ tier: thorough
+//@ timeout: 3600
+//@ functions: tdigest::TDigestView::rank
+//@ functions: tdigest::TDigestView::quantile
+//@ functions: tdigest::weighted_average
+//@ unwind: 6
+//@ bounds: one concrete digest of 3 centroids per instance, chosen so that the in-process algorithm would not produce it (0: heavy first centroid; 1: heavy last centroid; 2: repeated means with a weight-2 last centroid); the queries are symbolic: any f64 value(s) in [min-1, max+1] resp. any rank(s) on the grid n/4096
+//@ desc: rank is in [0,1], 0 below min, 1 above max and non-decreasing; quantile is in [min,max] (never NaN), min at 0, max at 1 and non-decreasing (slack 1e-9)
+fixed_digest_harness!(c10_rank_range_fixed_0, rank_range_fixed, 0); //@ tier: quick
+fixed_digest_harness!(c10_rank_range_fixed_1, rank_range_fixed, 1); //@ tier: quick
+fixed_digest_harness!(c10_rank_range_fixed_2, rank_range_fixed, 2); //@ tier: quick
+fixed_digest_harness!(c10_rank_monotone_fixed_0, rank_monotone_fixed, 0);
+fixed_digest_harness!(c10_rank_monotone_fixed_1, rank_monotone_fixed, 1);
+fixed_digest_harness!(c10_rank_monotone_fixed_2, rank_monotone_fixed, 2);
+fixed_digest_harness!(c10_quantile_range_fixed_0, quantile_range_fixed, 0); //@ tier: quick
+fixed_digest_harness!(c10_quantile_range_fixed_1, quantile_range_fixed, 1); //@ tier: quick
+fixed_digest_harness!(c10_quantile_range_fixed_2, quantile_range_fixed, 2); //@ tier: quick
+fixed_digest_harness!(c10_quantile_monotone_fixed_0, quantile_monotone_fixed, 0);
+fixed_digest_harness!(c10_quantile_monotone_fixed_1, quantile_monotone_fixed, 1);
+fixed_digest_harness!(c10_quantile_monotone_fixed_2, quantile_monotone_fixed, 2); //@ tier: quick
+//@ endfamily: x
+
 //@ props: C10 C17
 //@ tier: quick
 //@ timeout: 600
 //@ functions: tdigest::check_split_points
-//@ functions: tdigest::TDigestView::cdf
-//@ functions: tdigest::TDigestView::pmf
-//@ bounds: split-point lists of length 0..=3 with arbitrary finite sorted values; digest of 2 centroids
-//@ desc: every sorted, NaN-free split-point list - including the empty one - is accepted without panicking; cdf ends with 1, has len+1 entries, pmf sums to 1 (within 1e-9)
+//@ bounds: split-point lists of length 0..=3 with arbitrary f64 values (strictly increasing, NaN-free - the documented precondition)
+//@ desc: every sorted, NaN-free split-point list - including the empty one - is accepted without panicking
 #[kani::proof]
 #[kani::unwind(6)]
-fn c10_split_points_and_cdf() {
-    let sp: [f64; 3] = [any_val(), any_val(), any_val()];
+fn c10_check_split_points_accepts_valid_lists() {
+    let sp: [f64; 3] = kani::any();
     let n: usize = kani::any();
     kani::assume(n <= 3);
+    kani::assume(!sp[0].is_nan() && !sp[1].is_nan() && !sp[2].is_nan());
     if n >= 2 {
         kani::assume(sp[0] < sp[1]);
     }
@@ -214,22 +321,36 @@ fn c10_split_points_and_cdf() {
         kani::assume(sp[1] < sp[2]);
     }
     check_split_points(&sp[..n]);
-    let cs = [Centroid { mean: 1.0, weight: nz(3) }, Centroid { mean: 5.0, weight: nz(2) }];
-    let v = TDigestView { min: 0.0, max: 9.0, centroids: &cs, centroids_weight: 5 };
-    let c = v.cdf(&sp[..n]).unwrap();
-    assert!(c.len() == n + 1);
-    assert!(c[n] == 1.0);
-    let p = v.pmf(&sp[..n]).unwrap();
-    let mut sum = 0.0;
-    let mut i = 0;
-    while i < p.len() {
-        sum += p[i];
-        i += 1;
-    }
-    assert!(sum > 1.0 - 1e-9 && sum < 1.0 + 1e-9, "pmf does not sum to 1");
     kani::cover!(n == 0);
     kani::cover!(n == 3);
-    core::mem::forget((c, p));
+}
+
+//@ props: C10 C17
+//@ tier: quick
+//@ timeout: 1200
+//@ functions: tdigest::TDigestView::cdf
+//@ functions: tdigest::TDigestView::pmf
+//@ functions: tdigest::TDigestView::rank
+//@ bounds: a concrete digest of 2 centroids; the empty split-point list and a one-element list with a symbolic value
+//@ desc: cdf / pmf of the empty split-point list are [1]; pmf of one split point has two buckets, the first a rank in [0,1], summing to 1 (within 1e-9)
+#[kani::proof]
+#[kani::unwind(6)]
+fn c10_cdf_pmf_consistent() {
+    let cs = [Centroid { mean: 1.0, weight: nz(3) }, Centroid { mean: 5.0, weight: nz(2) }];
+    let v = TDigestView { min: 0.0, max: 9.0, centroids: &cs, centroids_weight: 5 };
+    let c0 = v.cdf(&[]).unwrap();
+    assert!(c0.len() == 1 && c0[0] == 1.0, "cdf of no split points is not [1]");
+    let p0 = v.pmf(&[]).unwrap();
+    assert!(p0.len() == 1 && p0[0] == 1.0, "pmf of no split points is not [1]");
+    let x: f64 = kani::any();
+    kani::assume(x >= -1.0 && x <= 10.0);
+    let p = v.pmf(&[x]).unwrap();
+    assert!(p.len() == 2);
+    assert!(p[0] >= 0.0 && p[0] <= 1.0, "first pmf bucket is not a rank");
+    let sum = p[0] + p[1];
+    assert!(sum > 1.0 - 1e-9 && sum < 1.0 + 1e-9, "pmf does not sum to 1");
+    kani::cover!(x > 1.0 && x < 5.0);
+    core::mem::forget((c0, p0, p));
 }
 
 //@ props: C10 C15 C17
@@ -239,17 +360,28 @@ fn c10_split_points_and_cdf() {
 //@ functions: tdigest::TDigestMut::total_weight
 //@ functions: tdigest::TDigestMut::min_value
 //@ functions: tdigest::TDigestMut::max_value
-//@ bounds: a fresh digest (k = 10) fed 3 arbitrary f64 bit patterns (NaN and infinities included)
+//@ bounds: a fresh digest (k = 10) fed 2 arbitrary f64 bit patterns (NaN and infinities included)
 //@ desc: total_weight counts exactly the finite values offered, min/max are their exact extremes, non-finite values are ignored
 #[kani::proof]
 #[kani::unwind(6)]
+#[kani::stub(TDigestMut::compress, cut_compress)]
 fn c10_update_counts_finite_values() {
-    let mut d = TDigestMut::new(10);
+    // (TDigestMut::new reserves 200 + 50 elements; built by hand to keep symbolic execution small)
+    let mut d = TDigestMut {
+        k: 10,
+        reverse_merge: false,
+        min: f64::INFINITY,
+        max: f64::NEG_INFINITY,
+        centroids: Vec::new(),
+        centroids_weight: 0,
+        centroids_capacity: 50,
+        buffer: Vec::new(),
+    };
     let mut cnt = 0u64;
     let mut mn = f64::INFINITY;
     let mut mx = f64::NEG_INFINITY;
     let mut i = 0;
-    while i < 3 {
+    while i < 2 {
         let x: f64 = kani::any();
         d.update(x);
         if x.is_finite() {
@@ -270,6 +402,7 @@ fn c10_update_counts_finite_values() {
         assert!(d.is_empty() && d.min_value().is_none());
     }
     kani::cover!(cnt == 2);
+    kani::cover!(cnt == 1);
     core::mem::forget(d);
 }
 
@@ -324,8 +457,8 @@ fn any_digest<const N: usize>() -> TDigestMut {
         total += w as u64;
         i += 1;
     }
-    let k: u16 = kani::any();
-    kani::assume(k >= 10);
+    // (k concrete: TDigestMut::make reserves 2k+10 and 4x that many elements; a symbolic size exhausts 14 GB)
+    let k: u16 = 100;
     TDigestMut {
         k,
         reverse_merge: kani::any(),
@@ -348,6 +481,13 @@ fn roundtrip_case<const N: usize>() {
         d.centroids[0].mean = d.min;
     } else if N >= 2 {
         kani::assume(d.centroids_weight >= 2);
+        // a digest's centroid means are sorted and lie within [min, max]
+        let mut i = 1;
+        while i < N {
+            kani::assume(d.centroids[i - 1].mean <= d.centroids[i].mean);
+            i += 1;
+        }
+        kani::assume(d.min <= d.centroids[0].mean && d.centroids[N - 1].mean <= d.max);
     }
     let k = d.k;
     let rev = d.reverse_merge;
@@ -378,8 +518,7 @@ fn roundtrip_case<const N: usize>() {
     }
     // ---- round trip (C11)
     let r = TDigestMut::deserialize(&bytes, false);
-    assert!(r.is_ok(), "own image rejected");
-    let g = r.unwrap();
+    let g = crate::verif_kani_common::expect_ok(r, "own image rejected");
     assert!(g.k == k, "k changed");
     assert!(g.total_weight() == d.total_weight(), "total weight changed");
     assert!(g.centroids.len() == N && g.buffer.is_empty());
@@ -398,23 +537,32 @@ fn roundtrip_case<const N: usize>() {
     core::mem::forget((d, g, bytes));
 }
 
+macro_rules! td_roundtrip {
+    ($name:ident, $n:expr) => {
+        #[kani::proof]
+        #[kani::unwind(60)]
+        #[kani::stub(alloc::fmt::format, stub_format)]
+        fn $name() {
+            roundtrip_case::<$n>();
+            kani::cover!(true);
+        }
+    };
+}
+
+//@ family: td_roundtrip
 //@ props: C11 C12 C18
-//@ tier: quick
+//@ tier: thorough
 //@ timeout: 1800
 //@ functions: tdigest::TDigestMut::serialize
 //@ functions: tdigest::TDigestMut::deserialize
-//@ bounds: compressed digests with 0, 1 (single value), 2 and 3 centroids; k, flags, min, max, means (any finite f64 bit pattern) and weights (1..2^32) symbolic
+//@ unwind: 60
+//@ bounds: compressed digests with the instance's number of centroids (0, 1 = single value, 2, 3); k = 100; flags, min, max, means (any finite f64 bit pattern) and weights (1..2^32) symbolic
 //@ desc: the image follows the t-digest layout (preLongs 1/2, serVer 1, family 20, k u16 @3, flags @5 empty|single|reverse, counts @8/@12, min/max f64 @16/@24, then (mean f64, weight u64) pairs) as read by an independent decoder, its length is 8 (+8) (+16+16n), and deserialize(serialize(d)) restores every field bit for bit
-#[kani::proof]
-#[kani::unwind(60)]
-#[kani::stub(alloc::fmt::format, stub_format)]
-fn c11_tdigest_roundtrip_layout() {
-    roundtrip_case::<0>();
-    roundtrip_case::<1>();
-    roundtrip_case::<2>();
-    roundtrip_case::<3>();
-    kani::cover!(true);
-}
+td_roundtrip!(c11_tdigest_roundtrip_0, 0); //@ tier: quick
+td_roundtrip!(c11_tdigest_roundtrip_1, 1); //@ tier: quick
+td_roundtrip!(c11_tdigest_roundtrip_2, 2); //@ tier: quick
+td_roundtrip!(c11_tdigest_roundtrip_3, 3);
+//@ endfamily: x
 
 //@ props: C14
 //@ tier: quick
@@ -487,6 +635,7 @@ fn c13_tdigest_foreign_encodings() {
     let mn: f32 = kani::any();
     let mx: f32 = kani::any();
     kani::assume(m0.is_finite() && m1.is_finite() && mn.is_finite() && mx.is_finite());
+    kani::assume(mn <= m0 && m0 <= m1 && m1 <= mx);
     let mut img = [0u8; 40];
     img[0] = 2;
     img[1] = 1;
@@ -507,8 +656,7 @@ fn c13_tdigest_foreign_encodings() {
     img[38] = (w1 >> 16) as u8;
     img[39] = (w1 >> 24) as u8;
     let r = TDigestMut::deserialize(&img, true);
-    assert!(r.is_ok(), "valid f32 image rejected");
-    let g = r.unwrap();
+    let g = crate::verif_kani_common::expect_ok(r, "valid f32 image rejected");
     assert!(g.k == k && g.centroids.len() == 2 && g.total_weight() == w0 as u64 + w1 as u64, "f32 image: k / centroid count / weight");
     assert!(g.min == mn as f64 && g.max == mx as f64, "f32 image: min / max");
     assert!(g.centroids[0].mean == m0 as f64 && g.centroids[0].weight.get() == w0 as u64 && g.centroids[1].mean == m1 as f64 && g.centroids[1].weight.get() == w1 as u64, "f32 image: centroids");
@@ -518,6 +666,7 @@ fn c13_tdigest_foreign_encodings() {
     let d1 = any_finite();
     let dmin = any_finite();
     let dmax = any_finite();
+    kani::assume(dmin <= d0 && d0 <= d1 && d1 <= dmax);
     let mut img = [0u8; 64];
     img[3] = 1;
     put_be_f64(&mut img, 4, dmin);
@@ -529,8 +678,7 @@ fn c13_tdigest_foreign_encodings() {
     put_be_f64(&mut img, 48, w1 as f64);
     put_be_f64(&mut img, 56, d1);
     let r = TDigestMut::deserialize(&img, false);
-    assert!(r.is_ok(), "valid reference-implementation image rejected");
-    let g = r.unwrap();
+    let g = crate::verif_kani_common::expect_ok(r, "valid reference-implementation image rejected");
     assert!(g.k == k && g.centroids.len() == 2 && g.total_weight() == w0 as u64 + w1 as u64, "compat image: k / count / weight");
     assert!(g.min.to_bits() == dmin.to_bits() && g.max.to_bits() == dmax.to_bits(), "compat image: min / max");
     assert!(g.centroids[0].mean.to_bits() == d0.to_bits() && g.centroids[1].mean.to_bits() == d1.to_bits() && g.centroids[0].weight.get() == w0 as u64, "compat image: centroids");
